@@ -23,6 +23,7 @@ import (
 	"sync/atomic"
 
 	"github.com/olive-io/bpmn/schema"
+	"github.com/olive-io/bpmn/v2/internal/verifhook"
 	"github.com/olive-io/bpmn/v2/pkg/data"
 	"github.com/olive-io/bpmn/v2/pkg/errors"
 	"github.com/olive-io/bpmn/v2/pkg/event"
@@ -576,6 +577,7 @@ func (sp *subProcess) run(ctx context.Context, out tracing.ITracer) {
 						return
 					}
 
+					verifhook.Point("subprocess.run.before_subscribe")
 					traces := sp.subTracer.Subscribe()
 					defer sp.subTracer.Unsubscribe(traces)
 				loop:
